@@ -458,12 +458,15 @@ def atCtor (t : Th) : Bool := t.pc == .ctor
 structure Inv (s : St) : Prop where
   nodup : s.created.Nodup
   instCreated : ∀ tok ∈ s.inst, tok ∈ s.created
-  createdInst : ∀ tok ∈ s.created, tok ∈ s.inst ∨ s.mux = some tok
-  muxCreated : ∀ tok, s.mux = some tok → tok ∈ s.created ∧ tok ∉ s.inst
+  createdInst : ∀ tok ∈ s.created, tok ∈ s.inst ∨ s.mux = some tok ∨ tok ∈ s.doneToks
+  muxCreated : ∀ tok, s.mux = some tok → tok ∈ s.created ∧ tok ∉ s.inst ∧ tok ∉ s.doneToks
   ctorMux : ∀ t ∈ s.thr, t.pc = .ctor → s.mux = some t.tok
   ctorCount : s.thr.countP atCtor = (if s.mux.isSome then 1 else 0)
-  handedInst : ∀ p ∈ s.handed, p.1 ∈ s.inst
-  cons : ∀ tok m, s.arrived.count (tok, m) = s.handed.count (tok, m) + s.thr.countP (carries tok m)
+  handedInst : ∀ p ∈ s.handed, p.1 ∈ s.inst ∨ p.1 ∈ s.doneToks
+  doneCreated : ∀ tok ∈ s.doneToks, tok ∈ s.created ∧ tok ∉ s.inst
+  droppedDone : ∀ p ∈ s.dropped, p.1 ∈ s.doneToks
+  cons : ∀ tok m, s.arrived.count (tok, m)
+      = s.handed.count (tok, m) + s.dropped.count (tok, m) + s.thr.countP (carries tok m)
 
 theorem inv_init : Inv {} := by constructor <;> simp
 
@@ -501,11 +504,11 @@ theorem carries_move {l : List Th} {i tok0 m0 : Nat} {a : Pc} (h : l[i]? = some 
   simpa [carries, and_assoc] using this
 
 theorem inv_step (s s' : St) (a : Act) (hI : Inv s) (hs : step s a = some s') : Inv s' := by
-  obtain ⟨hn, hic, hci, hmc, hcm, hcc, hhi, hc⟩ := hI
+  obtain ⟨hn, hic, hci, hmc, hcm, hcc, hhi, hdc, hdd, hc⟩ := hI
   cases a with
   | arrive tok m =>
     simp [step] at hs; subst hs
-    refine ⟨hn, hic, hci, hmc, ?_, ?_, hhi, ?_⟩
+    refine ⟨hn, hic, hci, hmc, ?_, ?_, hhi, hdc, hdd, ?_⟩
     · intro t ht hp
       simp at ht
       rcases ht with ht | ht
@@ -515,7 +518,8 @@ theorem inv_step (s s' : St) (a : Act) (hI : Inv s) (hs : step s a = some s') : 
     · intro tk mm
       have h1 := hc tk mm
       have h2 := count_snoc s.arrived tok m tk mm
-      show (s.arrived ++ [(tok, m)]).count (tk, mm) = s.handed.count (tk, mm) + (s.thr ++ [(⟨tok, m, .wait⟩ : Th)]).countP (carries tk mm)
+      show (s.arrived ++ [(tok, m)]).count (tk, mm) = s.handed.count (tk, mm) + s.dropped.count (tk, mm)
+        + (s.thr ++ [(⟨tok, m, .wait⟩ : Th)]).countP (carries tk mm)
       rw [h2, List.countP_append]
       by_cases e : tok = tk ∧ m = mm
       · obtain ⟨e1, e2⟩ := e; subst e1; subst e2; simp [carries]; omega
@@ -526,6 +530,43 @@ theorem inv_step (s s' : St) (a : Act) (hI : Inv s) (hs : step s a = some s') : 
             simp [e1, this]
           · simp [e1]
         simp [e, this]; omega
+  | done tok =>
+    simp only [step] at hs
+    split at hs
+    · rename_i hin
+      simp at hs; subst hs
+      refine ⟨hn, ?_, ?_, ?_, hcm, hcc, ?_, ?_, ?_, hc⟩
+      all_goals (try dsimp only)
+      · intro tk h; simp at h; exact hic tk h.1
+      · intro tk h
+        rcases hci tk h with h' | h' | h'
+        · by_cases e : tk = tok
+          · right; right; simp [e]
+          · left; simp [h', e]
+        · right; left; exact h'
+        · right; right; simp [h']
+      · intro tk h
+        obtain ⟨h1, h2, h3⟩ := hmc tk h
+        refine ⟨h1, ?_, ?_⟩
+        · intro hc'; simp at hc'; exact h2 hc'.1
+        · intro hc'; simp at hc'
+          rcases hc' with hc' | hc'
+          · exact h3 hc'
+          · subst hc'; exact h2 hin
+      · intro p hp
+        rcases hhi p hp with h' | h'
+        · by_cases e : p.1 = tok
+          · right; simp [e]
+          · left; simp [h', e]
+        · right; simp [h']
+      · intro tk h
+        simp at h
+        rcases h with h | h
+        · obtain ⟨h1, h2⟩ := hdc tk h
+          exact ⟨h1, by intro hc'; simp at hc'; exact h2 hc'.1⟩
+        · subst h; exact ⟨hic _ hin, by simp⟩
+      · intro p hp; simp; left; exact hdd p hp
+    · simp at hs
   | thread i =>
     simp only [step] at hs
     split at hs
@@ -541,11 +582,11 @@ theorem inv_step (s s' : St) (a : Act) (hI : Inv s) (hs : step s a = some s') : 
           have hmux' : s.mux = none := by
             cases hm : s.mux <;> simp [hm] at hmux ⊢
           split at hs
-          · -- the instance exists: hand the message over
-            rename_i hin
+          · -- late message for a finished instance: dropped
+            rename_i hdone
             simp at hs; subst hs
             have hk := countP_set' (p := atCtor) (t' := ⟨tok0, m0, .fin⟩) ht
-            refine ⟨hn, hic, hci, hmc, ?_, ?_, ?_, ?_⟩
+            refine ⟨hn, hic, hci, hmc, ?_, ?_, hhi, hdc, ?_, ?_⟩
             · intro t ht' hp
               rcases mem_set_cases ht' with e | h
               · subst e; simp at hp
@@ -554,13 +595,14 @@ theorem inv_step (s s' : St) (a : Act) (hI : Inv s) (hs : step s a = some s') : 
             · intro p hp
               simp at hp
               rcases hp with hp | hp
-              · exact hhi p hp
-              · subst hp; exact hin
+              · exact hdd p hp
+              · subst hp; exact hdone
             · intro tk mm
               have h1 := hc tk mm
               have h2 := carries_move ht .fin tk mm
-              have h3 := count_snoc s.handed tok0 m0 tk mm
-              show s.arrived.count (tk, mm) = (s.handed ++ [(tok0, m0)]).count (tk, mm) + (s.thr.set i ⟨tok0, m0, .fin⟩).countP (carries tk mm)
+              have h3 := count_snoc s.dropped tok0 m0 tk mm
+              show s.arrived.count (tk, mm) = s.handed.count (tk, mm) + (s.dropped ++ [(tok0, m0)]).count (tk, mm)
+                + (s.thr.set i ⟨tok0, m0, .fin⟩).countP (carries tk mm)
               rw [h3]
               have hb : ¬ (tok0 = tk ∧ m0 = mm ∧ Pc.fin ≠ Pc.fin) := fun h => h.2.2 rfl
               rw [if_neg hb] at h2
@@ -569,64 +611,102 @@ theorem inv_step (s s' : St) (a : Act) (hI : Inv s) (hs : step s a = some s') : 
                 rw [if_pos ha] at h2; rw [if_pos e]; omega
               · have ha : ¬ (tok0 = tk ∧ m0 = mm ∧ Pc.wait ≠ Pc.fin) := fun h => e ⟨h.1, h.2.1⟩
                 rw [if_neg ha] at h2; rw [if_neg e]; omega
-          · -- no instance: list one and run the constructor with the lock held
-            rename_i hnin
-            simp at hs; subst hs
-            have hnc : tok0 ∉ s.created := by
-              intro h
-              rcases hci tok0 h with h' | h'
-              · exact hnin h'
-              · rw [hmux'] at h'; simp at h'
-            have hk := countP_set' (p := atCtor) (t' := ⟨tok0, m0, .ctor⟩) ht
-            refine ⟨?_, ?_, ?_, ?_, ?_, ?_, hhi, ?_⟩
-            · refine List.nodup_append.mpr ⟨hn, by simp, ?_⟩
-              intro a ha b hb; simp at hb; subst hb; intro e; subst e; exact hnc ha
-            · intro tk h; simp; left; exact hic tk h
-            · intro tk h
-              simp at h
-              rcases h with h | h
-              · rcases hci tk h with h' | h'
-                · left; exact h'
+          · rename_i hnd
+            split at hs
+            · -- the instance exists: hand the message over
+              rename_i hin
+              simp at hs; subst hs
+              have hk := countP_set' (p := atCtor) (t' := ⟨tok0, m0, .fin⟩) ht
+              refine ⟨hn, hic, hci, hmc, ?_, ?_, ?_, hdc, hdd, ?_⟩
+              · intro t ht' hp
+                rcases mem_set_cases ht' with e | h
+                · subst e; simp at hp
+                · exact hcm t h hp
+              · simp [atCtor] at hk; simpa [hk] using hcc
+              · intro p hp
+                simp at hp
+                rcases hp with hp | hp
+                · exact hhi p hp
+                · subst hp; left; exact hin
+              · intro tk mm
+                have h1 := hc tk mm
+                have h2 := carries_move ht .fin tk mm
+                have h3 := count_snoc s.handed tok0 m0 tk mm
+                show s.arrived.count (tk, mm) = (s.handed ++ [(tok0, m0)]).count (tk, mm) + s.dropped.count (tk, mm)
+                  + (s.thr.set i ⟨tok0, m0, .fin⟩).countP (carries tk mm)
+                rw [h3]
+                have hb : ¬ (tok0 = tk ∧ m0 = mm ∧ Pc.fin ≠ Pc.fin) := fun h => h.2.2 rfl
+                rw [if_neg hb] at h2
+                by_cases e : tok0 = tk ∧ m0 = mm
+                · have ha : tok0 = tk ∧ m0 = mm ∧ Pc.wait ≠ Pc.fin := ⟨e.1, e.2, by decide⟩
+                  rw [if_pos ha] at h2; rw [if_pos e]; omega
+                · have ha : ¬ (tok0 = tk ∧ m0 = mm ∧ Pc.wait ≠ Pc.fin) := fun h => e ⟨h.1, h.2.1⟩
+                  rw [if_neg ha] at h2; rw [if_neg e]; omega
+            · -- no instance: list one and run the constructor with the lock held
+              rename_i hnin
+              simp at hs; subst hs
+              have hnc : tok0 ∉ s.created := by
+                intro h
+                rcases hci tok0 h with h' | h' | h'
+                · exact hnin h'
                 · rw [hmux'] at h'; simp at h'
-              · subst h; right; rfl
-            · intro tk h; simp at h; subst h; exact ⟨by simp, hnin⟩
-            · intro t ht' hp
-              rcases mem_set_cases ht' with e | h
-              · subst e; rfl
-              · have := hcm t h hp; rw [hmux'] at this; simp at this
-            · have h0 : s.thr.countP atCtor = 0 := by rw [hmux'] at hcc; exact hcc
-              simp [atCtor] at hk
-              show (s.thr.set i ⟨tok0, m0, .ctor⟩).countP atCtor = 1
-              rw [hk, h0]
-            · intro tk mm
-              have h1 := hc tk mm
-              have h2 := carries_move ht .ctor tk mm
-              show s.arrived.count (tk, mm) = s.handed.count (tk, mm) + (s.thr.set i ⟨tok0, m0, .ctor⟩).countP (carries tk mm)
-              by_cases e : tok0 = tk ∧ m0 = mm
-              · have ha : tok0 = tk ∧ m0 = mm ∧ Pc.wait ≠ Pc.fin := ⟨e.1, e.2, by decide⟩
-                have hb : tok0 = tk ∧ m0 = mm ∧ Pc.ctor ≠ Pc.fin := ⟨e.1, e.2, by decide⟩
-                rw [if_pos ha, if_pos hb] at h2; omega
-              · have ha : ¬ (tok0 = tk ∧ m0 = mm ∧ Pc.wait ≠ Pc.fin) := fun h => e ⟨h.1, h.2.1⟩
-                have hb : ¬ (tok0 = tk ∧ m0 = mm ∧ Pc.ctor ≠ Pc.fin) := fun h => e ⟨h.1, h.2.1⟩
-                rw [if_neg ha, if_neg hb] at h2; omega
+                · exact hnd h'
+              have hk := countP_set' (p := atCtor) (t' := ⟨tok0, m0, .ctor⟩) ht
+              refine ⟨?_, ?_, ?_, ?_, ?_, ?_, hhi, ?_, hdd, ?_⟩
+              · refine List.nodup_append.mpr ⟨hn, by simp, ?_⟩
+                intro a ha b hb; simp at hb; subst hb; intro e; subst e; exact hnc ha
+              · intro tk h; simp; left; exact hic tk h
+              · intro tk h
+                simp at h
+                rcases h with h | h
+                · rcases hci tk h with h' | h' | h'
+                  · left; exact h'
+                  · rw [hmux'] at h'; simp at h'
+                  · right; right; exact h'
+                · subst h; right; left; rfl
+              · intro tk h; simp at h; subst h; exact ⟨by simp, hnin, hnd⟩
+              · intro t ht' hp
+                rcases mem_set_cases ht' with e | h
+                · subst e; rfl
+                · have := hcm t h hp; rw [hmux'] at this; simp at this
+              · have h0 : s.thr.countP atCtor = 0 := by rw [hmux'] at hcc; exact hcc
+                simp [atCtor] at hk
+                show (s.thr.set i ⟨tok0, m0, .ctor⟩).countP atCtor = 1
+                rw [hk, h0]
+              · intro tk h
+                obtain ⟨h1, h2⟩ := hdc tk h
+                exact ⟨by simp [h1], h2⟩
+              · intro tk mm
+                have h1 := hc tk mm
+                have h2 := carries_move ht .ctor tk mm
+                show s.arrived.count (tk, mm) = s.handed.count (tk, mm) + s.dropped.count (tk, mm)
+                  + (s.thr.set i ⟨tok0, m0, .ctor⟩).countP (carries tk mm)
+                by_cases e : tok0 = tk ∧ m0 = mm
+                · have ha : tok0 = tk ∧ m0 = mm ∧ Pc.wait ≠ Pc.fin := ⟨e.1, e.2, by decide⟩
+                  have hb : tok0 = tk ∧ m0 = mm ∧ Pc.ctor ≠ Pc.fin := ⟨e.1, e.2, by decide⟩
+                  rw [if_pos ha, if_pos hb] at h2; omega
+                · have ha : ¬ (tok0 = tk ∧ m0 = mm ∧ Pc.wait ≠ Pc.fin) := fun h => e ⟨h.1, h.2.1⟩
+                  have hb : ¬ (tok0 = tk ∧ m0 = mm ∧ Pc.ctor ≠ Pc.fin) := fun h => e ⟨h.1, h.2.1⟩
+                  rw [if_neg ha, if_neg hb] at h2; omega
       | ctor =>
         simp only [stepTh] at hs
         simp at hs; subst hs
         have hm : s.mux = some tok0 := hcm ⟨tok0, m0, .ctor⟩ (List.mem_of_getElem? ht) rfl
-        have ⟨hcr, hni⟩ := hmc tok0 hm
+        have ⟨hcr, hni, hnd⟩ := hmc tok0 hm
         have hk := countP_set' (p := atCtor) (t' := ⟨tok0, m0, .fin⟩) ht
         have hzero : (s.thr.set i ⟨tok0, m0, .fin⟩).countP atCtor = 0 := by
           rw [hm] at hcc; simp [atCtor] at hk hcc; omega
-        refine ⟨hn, ?_, ?_, ?_, ?_, ?_, ?_, ?_⟩
+        refine ⟨hn, ?_, ?_, ?_, ?_, ?_, ?_, ?_, hdd, ?_⟩
         · intro tk h
           simp at h
           rcases h with h | h
           · exact hic tk h
           · subst h; exact hcr
         · intro tk h
-          rcases hci tk h with h' | h'
+          rcases hci tk h with h' | h' | h'
           · left; simp [h']
           · rw [hm] at h'; simp at h'; subst h'; left; simp
+          · right; right; exact h'
         · intro tk h; simp at h
         · intro t ht' hp
           exfalso
@@ -637,13 +717,23 @@ theorem inv_step (s s' : St) (a : Act) (hI : Inv s) (hs : step s a = some s') : 
         · intro p hp
           simp at hp
           rcases hp with hp | hp
-          · simp; left; exact hhi p hp
-          · subst hp; simp
+          · rcases hhi p hp with h' | h'
+            · left; simp [h']
+            · right; exact h'
+          · subst hp; left; simp
+        · intro tk h
+          obtain ⟨h1, h2⟩ := hdc tk h
+          refine ⟨h1, ?_⟩
+          intro hc'; simp at hc'
+          rcases hc' with hc' | hc'
+          · exact h2 hc'
+          · subst hc'; exact hnd h
         · intro tk mm
           have h1 := hc tk mm
           have h2 := carries_move ht .fin tk mm
           have h3 := count_snoc s.handed tok0 m0 tk mm
-          show s.arrived.count (tk, mm) = (s.handed ++ [(tok0, m0)]).count (tk, mm) + (s.thr.set i ⟨tok0, m0, .fin⟩).countP (carries tk mm)
+          show s.arrived.count (tk, mm) = (s.handed ++ [(tok0, m0)]).count (tk, mm) + s.dropped.count (tk, mm)
+            + (s.thr.set i ⟨tok0, m0, .fin⟩).countP (carries tk mm)
           rw [h3]
           have hb : ¬ (tok0 = tk ∧ m0 = mm ∧ Pc.fin ≠ Pc.fin) := fun h => h.2.2 rfl
           rw [if_neg hb] at h2
@@ -672,10 +762,28 @@ theorem c01_one_instance_per_token (as : List Act) : (run {} as).created.Nodup :
 /-- **to that instance and no other**: every hand-over goes to the registered instance of the
 message's own token (which, by the previous theorem, is unique). -/
 theorem c01_handed_to_its_instance (as : List Act) :
-    ∀ p ∈ (run {} as).handed, p.1 ∈ (run {} as).inst ∧ p.1 ∈ (run {} as).created := by
+    ∀ p ∈ (run {} as).handed,
+      (p.1 ∈ (run {} as).inst ∨ p.1 ∈ (run {} as).doneToks) ∧ p.1 ∈ (run {} as).created := by
   intro p hp
   have hI := inv_run as {} inv_init
-  exact ⟨hI.handedInst p hp, hI.instCreated _ (hI.handedInst p hp)⟩
+  rcases hI.handedInst p hp with h | h
+  · exact ⟨.inl h, hI.instCreated _ h⟩
+  · exact ⟨.inr h, (hI.doneCreated _ h).1⟩
+
+/-- **a finished instance stays finished and single**: a token that was marked done is no longer
+listed, and (with `c01_one_instance_per_token`) its constructor never runs again — whatever
+messages for it were waiting for the lock when it finished. -/
+theorem c01_finished_not_relisted (as : List Act) :
+    ∀ tok ∈ (run {} as).doneToks, tok ∉ (run {} as).inst ∧ (run {} as).created.count tok = 1 := by
+  intro tok h
+  have hI := inv_run as {} inv_init
+  obtain ⟨h1, h2⟩ := hI.doneCreated tok h
+  exact ⟨h2, by rw [hI.nodup.count]; simp [h1]⟩
+
+/-- only late messages are dropped inside the region -/
+theorem c01_dropped_only_finished (as : List Act) :
+    ∀ p ∈ (run {} as).dropped, p.1 ∈ (run {} as).doneToks :=
+  (inv_run as {} inv_init).droppedDone
 
 /-- the region is a critical section: at most one thread is inside it -/
 theorem c01_region_mutex (as : List Act) : (run {} as).thr.countP atCtor ≤ 1 := by
@@ -685,7 +793,8 @@ theorem c01_region_mutex (as : List Act) : (run {} as).thr.countP atCtor ≤ 1 :
 /-- **exactly once through the region**: once every arrival thread has finished, each message was
 handed over exactly as often as it arrived. -/
 theorem c01_region_exactly_once (as : List Act) (hq : ∀ t ∈ (run {} as).thr, t.pc = .fin) :
-    ∀ tok m, (run {} as).handed.count (tok, m) = (run {} as).arrived.count (tok, m) := by
+    ∀ tok m, (run {} as).handed.count (tok, m) + (run {} as).dropped.count (tok, m)
+      = (run {} as).arrived.count (tok, m) := by
   intro tok m
   have hI := inv_run as {} inv_init
   have h0 : (run {} as).thr.countP (carries tok m) = 0 := by
@@ -700,6 +809,15 @@ example : (run {} [.arrive 9 1, .thread 0, .arrive 7 2, .arrive 7 3, .thread 1, 
       .thread 1, .thread 2, .thread 1, .thread 2]).created = [9, 7] ∧
     (run {} [.arrive 9 1, .thread 0, .arrive 7 2, .arrive 7 3, .thread 1, .thread 2, .thread 0,
       .thread 1, .thread 2, .thread 1, .thread 2]).handed = [(9, 1), (7, 2), (7, 3)] := by decide
+
+/-- non-vacuity: message 3 for instance 9 waits for the lock (instance 7 is being constructed) while 9
+finishes: it is dropped, no second instance 9 -/
+example : (run {} [.arrive 9 1, .thread 0, .thread 0, .arrive 7 2, .thread 1, .arrive 9 3, .thread 2,
+      .done 9, .thread 1, .thread 2]).created = [9, 7] ∧
+    (run {} [.arrive 9 1, .thread 0, .thread 0, .arrive 7 2, .thread 1, .arrive 9 3, .thread 2,
+      .done 9, .thread 1, .thread 2]).dropped = [(9, 3)] ∧
+    (run {} [.arrive 9 1, .thread 0, .thread 0, .arrive 7 2, .thread 1, .arrive 9 3, .thread 2,
+      .done 9, .thread 1, .thread 2]).inst = [7] := by decide
 
 end Inst
 
